@@ -329,6 +329,15 @@ pub fn check(name: &str, map: &Beatmap, edits: &[&Edit], acc: &mut Acc) {
                 diffs.push(("through-short-writes".into(), format!("the text written to a writer accepting {k} bytes per call differs at byte {at} (…{ctx:?}…), so the edits are not carried by every writer")));
             }
         }
+        // ... and read back through a reader that hands out small chunks (a legitimate `BufRead`): same map
+        if edits.len() <= 1 {
+            let cap = 2 + text.len() % 23;
+            let rd = std::io::BufReader::with_capacity(cap, std::io::Cursor::new(text.as_bytes()));
+            let chunked = <Beatmap as rosu_map::DecodeBeatmap>::decode(rd).map_err(|e| format!("decode from a reader with {cap}-byte chunks: {e}"))?;
+            if format!("{chunked:?}") != format!("{back:?}") {
+                diffs.push(("through-chunked-reader".into(), format!("decoding the encoded text from a reader with {cap}-byte chunks gives a different map than from_str")));
+            }
+        }
         Ok::<_, String>(diffs)
     });
     let mode_edit = edits.iter().any(|e| matches!(e, Edit::Mode(_)));
